@@ -179,7 +179,7 @@ def run_cuts(kind, stream, cuts):
   return r
 
 
-def run_with_pause(kind, stream, k, cuts=()):
+def run_with_pause(kind, stream, k, cuts=(), then='resume'):
   """Feed `stream` (cut at `cuts`) while flow control pauses the receivers during the delivery of the k-th
   datapoint (events.pauseReceivingMetrics fired from inside the pipeline, as a full cache or send queue does)
   and resumes them after the last byte: bytes that the process has already read must still be delivered."""
@@ -197,7 +197,18 @@ def run_with_pause(kind, stream, k, cuts=()):
     for c in list(cuts) + [len(stream)]:
       r.feed(stream[prev:c])
       prev = c
-    events.resumeReceivingMetrics()
+    if then == 'resume':
+      events.resumeReceivingMetrics()
+    else:
+      # the peer closes (or the daemon shuts down) while the receivers are still paused: what the process has
+      # already read must not die with the connection
+      from twisted.python.failure import Failure
+      from twisted.internet.error import ConnectionDone
+      try:
+        r.proto.connectionLost(Failure(ConnectionDone()))
+      except Exception as e:   # noqa
+        r.exc = r.exc or e
+      events.resumeReceivingMetrics()
   finally:
     events.metricReceived.removeHandler(pauser)
   return r
